@@ -65,6 +65,11 @@ def _match(p, n, b):
         return nb
     p = _canon_compare(p)
     n = _canon_compare(n)
+    # arithmetic on number literals stands for its value: 10000 * 1e-06 is 0.01
+    if isinstance(p, ast.expr) and isinstance(n, ast.expr) and not (isinstance(p, ast.Constant) and isinstance(n, ast.Constant)):
+        pv_, nv_ = _const_value(p), _const_value(n)
+        if pv_ is not None and nv_ is not None:
+            return b if pv_ == nv_ or (pv_ != 0 and abs(pv_ - nv_) <= 1e-15 * abs(pv_)) else None
     if isinstance(p, ast.If) and isinstance(n, ast.If):
         # a condition hoisted into a single-assignment local, and `if not c: B else: A` for `if c: A else: B`
         test, body, orelse = n.test, n.body, n.orelse
@@ -136,6 +141,34 @@ def _match(p, n, b):
     if isinstance(p, ast.List) and isinstance(n, ast.Tuple) and isinstance(getattr(n, 'ctx', None), ast.Load):
         n = ast.List(elts=n.elts, ctx=ast.Load())          # a literal list or tuple of words
     return _match_fields(p, n, b)
+
+
+def _const_value(n, depth=0):
+    """value of an expression made of number literals and + - * / ** only (None otherwise)"""
+    if depth > 6:
+        return None
+    if isinstance(n, ast.Constant) and isinstance(n.value, (int, float)) and not isinstance(n.value, bool):
+        return float(n.value)
+    if isinstance(n, ast.UnaryOp) and isinstance(n.op, (ast.USub, ast.UAdd)):
+        v = _const_value(n.operand, depth + 1)
+        return None if v is None else (-v if isinstance(n.op, ast.USub) else v)
+    if isinstance(n, ast.BinOp) and isinstance(n.op, (ast.Add, ast.Sub, ast.Mult, ast.Div, ast.Pow)):
+        a, c = _const_value(n.left, depth + 1), _const_value(n.right, depth + 1)
+        if a is None or c is None:
+            return None
+        try:
+            if isinstance(n.op, ast.Add):
+                return a + c
+            if isinstance(n.op, ast.Sub):
+                return a - c
+            if isinstance(n.op, ast.Mult):
+                return a * c
+            if isinstance(n.op, ast.Div):
+                return a / c
+            return a ** c if abs(c) <= 64 else None
+        except (ZeroDivisionError, OverflowError, ValueError):
+            return None
+    return None
 
 
 def _match_fields(p, n, b):
